@@ -194,15 +194,24 @@ def sim_struct(ctx):
             if isinstance(data, ast.Call) and res(data.func) == 'numpy.hstack' and \
                     isinstance(data.args[0], (ast.List, ast.Tuple)):
                 blocks = [norm_text(e) for e in data.args[0].elts]
-            return blocks, (norm_text(cols[0]) if cols else None), \
-                (norm_text(idx[0]) if idx else None)
+            try:
+                cv = list(ctx.repo.fold(cols[0], f.module)) if cols else None
+            except (ValueError, TypeError):
+                cv = None
+            return blocks, cv, (norm_text(idx[0]) if idx else None)
         p0, p1 = parts(t0), parts(t1)
-        if p0 and p1:
+        if p0 and p1 and p0[0] is not None and p1[0] is not None:
             gy, ac = (outs + [None, None])[:2]
             ok = p0[0] == [f.params[1], f.params[3], f.params[2]] and \
-                p0[1] == 'TRAJECTORY_COLS' and p1[1] == 'GYRO_COLS + ACCEL_COLS' and \
+                p0[1] == list(ctx.repo.const('util.TRAJECTORY_COLS')) and \
+                p1[1] == list(ctx.repo.const('util.GYRO_COLS')) + \
+                list(ctx.repo.const('util.ACCEL_COLS')) and \
                 p1[0] == [gy, ac] and p0[2] == p1[2] and p0[2] is not None
             why = 'trajectory table %s, imu table %s' % (p0, p1)
+    # a form this rule does not read is not a finding
+    ctx.need(why != 'returned tables not recognised',
+             'generate_imu: the returned pair of tables is not built as two pd.DataFrame(np.hstack('
+             '[...]), index=..., columns=...) calls')
     ctx.ob('SIM-DUP', ok, None, 'trajectory = [lla, velocity_n, rph], imu = [gyro, accel] on one '
            'time index', f=f, node=(ret[-1] if ret else f.node), key='tables', why=why)
 
